@@ -117,6 +117,7 @@ package spynode
 //@   opt nomonitor = 1
 //@   opt partial = 1
 //@   opt abstract = SaveTxState FetchTxState fetchSpentOutputs CleanupBlock RemoveTransaction Conflicting
+//@   opt track = SaveTxState
 //@   requires node != nil && node.blocks != nil && node.txs != nil && node.memPool != nil && node.state != nil
 //@   requires handlersstorage.InvU(node.txs) && !held(node.txs.unconfirmedLock) && !held(node.txs.blockLock)
 //@   requires handlersstorage.InvMem(node.blocks) && handlersstorage.InvFull(node.blocks) && handlersstorage.InvTop(node.blocks) && handlersstorage.InvNewest(node.blocks)
@@ -141,6 +142,10 @@ package spynode
 //@   assert proof_only_for_deliverable at call AddMerkleProof : [C03] arg1 == TxHashOf(tx) && (inUnconfirmed || (!inMemPool && Relevant(tx)))
 //@   assert skipped_are_irrelevant_or_seen at call TxRepository.Remove : [C03] !inUnconfirmed && !inMemPool && !Relevant(tx)
 //@   assert untracked_means_not_in_unconfirmed_set at call IsReady loop 0 : [C03 C11] !inUnconfirmed ==> forall(k, 0, len(unconfirmed), unconfirmed[k] != TxHashOf(tx))
+//@   assert stored_before_new_notification at call HandleTx loop 5 : [C11 C03] lastarg(SaveTxState, 2) == arg2
+//@   assert stored_before_update at call HandleTxUpdate loop 6 : [C11] lastarg(SaveTxState, 2) == txState && arg2.State == txState.State
+//@   assert stored_before_cancel at call HandleTxUpdate loop 3 : [C11 C06] lastarg(SaveTxState, 2) == txState && arg2.State == txState.State
+//@   ensures unconfirmed_lock_released: [C03] !held(node.txs.unconfirmedLock)
 //@   assert new_means_first_seen at call HandleTx loop 5 : [C03] txsIsNew[i]
 //@   assert update_means_delivered_before at call HandleTxUpdate loop 6 : [C03] !txsIsNew[i]
 //@   assert cancels_loser at call HandleTxUpdate loop 3 : [C06] arg2.TxID == confHash && arg2.State.UnSafe && arg2.State.Cancelled
@@ -163,7 +168,9 @@ package spynode
 //@   opt partial = 1
 //@   opt abstract = AddTransaction TxTracker.Remove FetchTxState SaveTxState fetchSpentOutputs
 //@   requires pbase(node) && tx.Msg != nil
-//@   opt track = MarkUnsafe
+//@   opt track = MarkUnsafe SaveTxState
+//@   assert stored_before_notification at call HandleTx : [C11 C03] lastarg(SaveTxState, 2) == arg2
+//@   assert stored_before_conflict_update at call HandleTxUpdate : [C11 C05] lastarg(SaveTxState, 2) == txState && arg2.State == txState.State
 //@   loop * invariant pbase(node)
 //@   loop 0 invariant pbase(node) && 0 <= _i && _i <= len(conflicts) && ncalls(MarkUnsafe) == _i
 //@   loop 1 invariant pbase(node) && sinceloop(ncalls(MarkUnsafe) == old(ncalls(MarkUnsafe)))
